@@ -4,6 +4,7 @@ spec/Groups.tla."""
 
 import itertools
 import multiprocessing as mp
+from .par import pmap
 import random
 
 from . import explore as X
@@ -50,8 +51,7 @@ def pause_groups(results, max_per_tree=60, rng=None):
     jobs = [(r["d"], sched, r["lang"], r["tok"]) for r, n, sched in cands]
     if not jobs:
         return [], 0
-    with mp.Pool(16) as pool:
-        fins = pool.map(_twin_job, jobs, chunksize=8)
+    fins = pmap(_twin_job, jobs)
     groups, infeasible = [], 0
     for (r, n, sched), tw in zip(cands, fins):
         if tw is None or "error" in tw:
@@ -137,8 +137,7 @@ def persist_groups(results, per_tree=6, rng=None, subsets=2):
                 meta.append((r, sched, pts))
     if not jobs:
         return [], 0
-    with mp.Pool(16) as pool:
-        outs = pool.map(_persist_job, jobs, chunksize=4)
+    outs = pmap(_persist_job, jobs)
     groups, errors = [], 0
     for (r, sched, pts), o in zip(meta, outs):
         if isinstance(o, dict):
@@ -236,8 +235,7 @@ def rerun_groups(results, max_per_tree=40, rng=None):
             jobs.append((dd, r["lang"], r["tok"]))
     if not jobs:
         return [], 0
-    with mp.Pool(16) as pool:
-        outs = pool.map(_clean_job, jobs, chunksize=2)
+    outs = pmap(_clean_job, jobs)
     groups, skipped = [], 0
     for r, n, sched, fates, partial, sd in cands:
         key = (r["d"]["name"], tuple(sorted((t, f[0]) for t, f in fates.items())))
